@@ -85,11 +85,26 @@ def run_case(kind, shape, k, mode, post=("connect", "send", "data", "eof"), duri
         S0 = loop.steps
         closed = asyncio.Event()
 
+        second = {}
+
         def inject_during():
+            what = during[0]
+            if what == "close2":
+                # another owner of the client (a shutdown handler, an `async with` exit) calls close() as well, while the first call
+                # is still running
+                async def again():
+                    await c.close()
+                    second["returned"] = loop.time()
+                    second["returned_step"] = loop.steps
+                    s.links_open_at_return = [l.index for l in s.gw.links if not (l.closed_by_client or l.lost_called)]
+                    for l in s.gw.links:
+                        if not (l.closed_by_client or l.lost_called or l.dead):
+                            l.feed(valid_packet(kind, sid=66))       # the gateway goes on sending
+                second["task"] = asyncio.ensure_future(again())
+                return
             l = s.gw.link
             if l is None:
                 return
-            what = during[0]
             if what == "data":
                 l.feed(valid_packet(kind, sid=55))
             elif what == "sorry":
@@ -109,6 +124,13 @@ def run_case(kind, shape, k, mode, post=("connect", "send", "data", "eof"), duri
             await c.close()
             s.close_returned = loop.time()
             s.close_returned_step = loop.steps
+            if not hasattr(s, "links_open_at_return"):
+                s.links_open_at_return = [l.index for l in s.gw.links if not (l.closed_by_client or l.lost_called)]
+            if second.get("task") is not None:
+                await second["task"]
+                # whichever call returns first has promised everything close() promises
+                if second["returned"] < s.close_returned:
+                    s.close_returned, s.close_returned_step = second["returned"], second["returned_step"]
             closed.set()
 
         def outstanding_now():
@@ -174,6 +196,8 @@ def evaluate(kind, shape, k, mode, outcome, s, during=None):
         lr = [t for t, _ in s.received if t > s.close_returned + 1e-9]
         if lr:
             out.append((f"{tag}|callback-after-close", f"{len(lr)} receive callback(s) after close() returned", case))
+    if getattr(s, "links_open_at_return", None):
+        out.append((f"{tag}|link-open-when-close-returned", f"links {s.links_open_at_return} were still open when a close() call returned", case))
     open_links = [l.index for l in s.gw.links if not (l.closed_by_client or l.lost_called)]   # shut by the client or already lost (reset)
     if open_links:
         out.append((f"{tag}|link-left-open", f"links {open_links} of {len(s.gw.links)} were never closed by the client", case))
@@ -235,7 +259,7 @@ def _enumerate(ctx: Ctx, item):
 def _during(ctx: Ctx, item):
     """Link events while close() is running (enumerated: event kind x delay in loop steps x callback mode x shape)."""
     kind, = item
-    events = ["data", "eof", "reset"] + (["sorry"] if kind == "ebyte" else [])
+    events = ["data", "eof", "reset", "close2"] + (["sorry"] if kind == "ebyte" else [])
     for shape in ("connected_idle", "mid_packet", "in_callback"):
         for ev in events:
             for j in (0, 1, 2, 4):
